@@ -174,7 +174,7 @@ def register(R, tier="quick"):
                requires=["minv(self)", ACTIVE, all_quality, "minquality >= 0"],
                ensures=["minv(self)", passed_low],
                modifies=["self.matchers", "self.current"], returns="int",
-               loops={0: LoopSpec(inv=["minv(self)", passed_low, "skipped >= 0"], modifies=["self.matchers", "self.current"])},
+               loops={0: LoopSpec(inv=["minv(self)", passed_low], modifies=["self.matchers", "self.current"])},
                canaries=[Canary("stays-on-exhausted-child", "self._next_matcher()", "pass"),
                          Canary("threshold-doubled", "sk = mr.skip_to_quality(minquality)", "sk = mr.skip_to_quality(minquality * 2 + 1)")],
                note="skip_to_quality(q) over several segments: each segment's matcher only passes entries scoring at most q, "
